@@ -161,3 +161,67 @@ func scheduleHorizon(in []byte) (any, error) {
 	}
 	return map[string]any{"rows": rows}, nil
 }
+
+// before-horizon: a `before` cursor / filter criterion outside the int64 nanosecond range (the Admin API accepts any RFC 3339 instant).
+// C14: a by-filter mutation selects only messages matching every criterion - "received before the year 1600" matches nothing,
+// "received before the year 2300" matches everything received so far; C13: the same on either backend.
+func init() { register("before-horizon", beforeHorizon) }
+
+type bhRow struct {
+	Backend string `json:"backend"`
+	Year    int    `json:"year"`
+	Listed  int    `json:"listed"`          // ListMessages(before)
+	Dead    int    `json:"dead_listed"`     // ListDead(before)
+	Preview int    `json:"cancel_preview"`  // CancelMessagesByFilter(before, preview)
+	Changed int    `json:"requeue_changed"` // RequeueMessagesByFilter(before) on the dead message
+	Err     string `json:"err,omitempty"`
+}
+
+func beforeHorizon(in []byte) (any, error) {
+	var req struct {
+		Dir   string `json:"dir"`
+		NowNs int64  `json:"now_ns"`
+		Years []int  `json:"years"`
+	}
+	if err := json.Unmarshal(in, &req); err != nil {
+		return nil, err
+	}
+	var rows []bhRow
+	for _, backend := range []string{"memory", "sqlite"} {
+		for k, y := range req.Years {
+			clk := &clock{}
+			clk.set(req.NowNs)
+			st, closeFn, _, err := openStore(backend, qCfg{}, clk, filepath.Join(req.Dir, "bh-"+backend+"-"+itoa(k)+".db"))
+			row := bhRow{Backend: backend, Year: y}
+			if err != nil {
+				row.Err = err.Error()
+				rows = append(rows, row)
+				continue
+			}
+			for _, id := range []string{"a", "b", "c"} {
+				_ = st.Enqueue(queue.Envelope{ID: id, Route: "/r", Target: "t", Payload: []byte("x")})
+			}
+			if r, e := st.Dequeue(queue.DequeueRequest{Route: "/r", Target: "t", Batch: 1, LeaseTTL: time.Minute}); e == nil && len(r.Items) == 1 {
+				_ = st.MarkDead(r.Items[0].LeaseID, "boom")
+			}
+			before := time.Date(y, 1, 1, 0, 0, 0, 0, time.UTC)
+			if l, e := st.ListMessages(queue.MessageListRequest{Limit: 10, Before: before}); e == nil {
+				row.Listed = len(l.Items)
+			} else {
+				row.Err = e.Error()
+			}
+			if l, e := st.ListDead(queue.DeadListRequest{Route: "/r", Limit: 10, Before: before}); e == nil {
+				row.Dead = len(l.Items)
+			}
+			if p, e := st.CancelMessagesByFilter(queue.MessageManageFilterRequest{Route: "/r", Limit: 10, Before: before, PreviewOnly: true}); e == nil {
+				row.Preview = p.Matched
+			}
+			if p, e := st.RequeueMessagesByFilter(queue.MessageManageFilterRequest{Route: "/r", Limit: 10, Before: before, State: queue.StateDead}); e == nil {
+				row.Changed = p.Requeued
+			}
+			closeFn()
+			rows = append(rows, row)
+		}
+	}
+	return map[string]any{"rows": rows}, nil
+}
